@@ -931,10 +931,13 @@ class Gen:
                 ordinal += 1
                 if ordinal in c.closures:
                     expect, lines = c.closures[ordinal]
-                    if norm(expect) != norm(params):
+                    # the expected parameter text is a regex (identifiers may be renamed); groups may
+                    # be referred to as \\1.. in the specification lines
+                    mm = re.fullmatch(expect, norm(params))
+                    if not mm:
                         raise ExtractError(f"{relsrc}: {key}: closure {ordinal} parameters changed (anchor lost): {params}")
-                    header = lines[0].strip()
-                    pre = " ".join(x.strip() for x in lines[1:])
+                    header = mm.expand(lines[0].strip())
+                    pre = " ".join(mm.expand(x.strip()) for x in lines[1:])
                     rep = f"{header} {{ {pre} {btext} }}"
                     self.count("R14_closure_spec_from_sidecar")
                 else:
